@@ -58,7 +58,10 @@ def mk_RTLIRTranslator( _StructuralTranslator, _BehavioralTranslator ):
         for child in m.get_child_components(repr):
           translate_component( child, components )
 
-        name = s.structural.component_unique_name[m]
+        # The module is emitted under its explicit name when it has one: that
+        # is the name two components must not share
+        name = getattr( s.structural, 'component_explicit_module_name', {} ).get( m ) \
+               or s.structural.component_unique_name[m]
         body = s.rtlir_tr_component(
             get_component_nspace( s.behavioral, m ),
             get_component_nspace( s.structural, m ),
